@@ -273,9 +273,11 @@ Finish ==
   /\ UNCHANGED <<sent, style, closed, cur, off, alr, docs, dev, late>>
 
 Terms == IF MixedTerm THEN {1, 2} ELSE {style}
+\* (the guards common to every line are tested before the alphabet is enumerated)
 Client == /\ closed = "open" /\ Blocked
-          /\ \/ \E l \in Lines, t \in Terms : Send(l, t)
-             \/ \E l \in Lines, e \in BOOLEAN : Close(TRUE, l, e)
+          /\ \/ /\ Len(sent) < MaxLines /\ (pc = "done" => late < PostErr)
+                /\ \/ \E l \in Lines, t \in Terms : Send(l, t)
+                   \/ \E l \in Lines, e \in BOOLEAN : Close(TRUE, l, e)
              \/ Close(FALSE, Ln("bl", 0, NoTm), FALSE)
 Next == \/ Client
         \/ SkipActionLine \/ ReadDocFirst \/ ReadDocSkipRest \/ Process \/ Finish
@@ -286,8 +288,8 @@ Spec == Init /\ [][Next]_vars
 GoodFor(p) == IF p = "skipAction"
                 THEN {l \in Lines : \/ l.len = 0
                                     \/ (l.len <= M - 2 /\ (IsCreateOrIndex(l.c) \/ (alr = ActionLinesToCheck /\ l.c = "ao")))}
-                ELSE {l \in Lines : l.len > 0}
-RandLine(p) == IF RandomElement(1..10) <= 8 THEN RandomElement(GoodFor(p)) ELSE RandomElement(Lines)
+                ELSE {l \in Lines : l.len > 0 /\ (IsValidJSON(l.c) \/ l.len > M)}
+RandLine(p) == IF RandomElement(1..15) <= 14 THEN RandomElement(GoodFor(p)) ELSE RandomElement(Lines)
 SimClient(n) ==
   IF n >= MaxLines \/ (pc = "done" /\ late >= PostErr) \/ RandomElement(1..MaxLines) = 1
     THEN IF n < MaxLines /\ ~(pc = "done" /\ late >= PostErr) /\ RandomElement(1..3) = 1
